@@ -12,7 +12,8 @@
      FR <items> <at>           filterReferrers
      B <limit> <json> <doclen> <totlen>   limitReader + decoder
      Z <limit> <size>          limitSize
-     O <entries> <last>        content/oci listTags *)
+     O <entries> <last>        content/oci listTags
+     X <limit> <found> <size> <items> <at> <cbfail>   referrers tag schema *)
 let z_of_int (i : int) : z =
   if i = 0 then Z0 else if i > 0 then Zpos (pos_of_int i) else Zneg (pos_of_int (- i))
 
@@ -51,7 +52,8 @@ let tok_of_url u = hex_of_str u.u_path ^ "?" ^ tok_of_query u.u_query
 let kind_of_tok = function "T" -> KTags | "K" -> KCatalog | "R" -> KReferrers | _ -> failwith "kind"
 let out_name = function
   | Done -> "Done" | ErrStatus -> "ErrStatus" | ErrCType -> "ErrCType" | ErrDecode -> "ErrDecode"
-  | ErrCallback -> "ErrCallback" | ErrLink -> "ErrLink" | ErrResolve -> "ErrResolve" | OutOfFuel -> "OutOfFuel"
+  | ErrCallback -> "ErrCallback" | ErrLink -> "ErrLink" | ErrResolve -> "ErrResolve" | ErrSize -> "ErrSize"
+  | OutOfFuel -> "OutOfFuel"
 
 let rec take n l = if n = 0 then ([], l) else match l with x :: r -> let (a, b) = take (n - 1) r in (x :: a, b) | [] -> failwith "short"
 
@@ -125,5 +127,11 @@ let () =
       let es = List.map item_of_tok (split_on_char_ne ',' ents) in
       let r = list_tags es (str_of_hex last) in
       Printf.printf "%s %s\n" id (match r with [] -> "_" | _ -> String.concat "," (List.map hex_of_str r))
+    | [id; "X"; limit; found; size; its; at; cbf] ->
+      let cbfail = int_of_string cbf in
+      let (pages, out) = tag_schema (z_of_int (int_of_string limit)) (bool_tok found) (z_of_int (int_of_string size))
+          (items_of_tok its) (str_of_hex at) (fun k -> int_of_nat k = cbfail) in
+      Printf.printf "%s P %d %s O %s\n" id (List.length pages)
+        (match pages with [] -> "_" | ps -> String.concat ";" (List.map tok_of_items ps)) (out_name out)
     | [] -> ()
     | _ -> Printf.printf "BADLINE %s\n" l)
